@@ -54,6 +54,27 @@ fn observe_3ds(route: Route, fmt: Fmt, w: usize, h: usize, payload: &[u8]) -> Ob
     }
 }
 
+/// the image as the LAST of three images in one TPL file (the two before it have other sizes
+/// and palettes): state shared between the images of one file must not leak into it
+fn observe_tpl_third(w: usize, h: usize, payload: &[u8], palette: &[u16]) -> Obs {
+    let mk = |w: usize, h: usize, payload: Vec<u8>, palette: Vec<u16>| TexSpec { name: String::new(), width: w, height: h, format: rt::TPL_CI8, payload, palette };
+    let first = mk(8, 4, (0..32).map(|i| (i % 4) as u8).collect(), vec![0x8000, 0x801F, 0x83E0, 0xFC00]);
+    let second = mk(5, 3, vec![1; rp::ci8_len(5, 3)], vec![0x0000, 0x7FFF]);
+    let file = rt::build_tpl(&[first, second, mk(w, h, payload.to_vec(), palette.to_vec())], &Layout::canonical()).bytes;
+    util::catch(|| match mila::tpl::Tpl::extract_textures(&file) {
+        Err(e) => Err(e.to_string()),
+        Ok(v) => {
+            if v.len() != 3 {
+                Err(format!("three-image TPL yields {} textures", v.len()))
+            } else if v[2].width != w || v[2].height != h {
+                Err(format!("TPL reports {}x{} for the third image, a {}x{} one", v[2].width, v[2].height, w, h))
+            } else {
+                Ok(v.into_iter().nth(2).unwrap().pixel_data)
+            }
+        }
+    })
+}
+
 fn observe_tpl(w: usize, h: usize, payload: &[u8], palette: &[u16]) -> Obs {
     let spec = TexSpec { name: String::new(), width: w, height: h, format: rt::TPL_CI8, payload: payload.to_vec(), palette: palette.to_vec() };
     let file = rt::build_tpl(&[spec], &Layout::canonical()).bytes;
@@ -162,7 +183,7 @@ fn needs_cross(fam: &str) -> bool {
 
 fn pos_sizes(tier: Tier) -> Vec<(usize, usize)> {
     let dims: &[usize] = match tier {
-        Tier::Quick => &[8, 16, 128],
+        Tier::Quick => &[8, 16, 32, 64, 128], // cheap: the quick tier uses the full size set
         Tier::Thorough => &[8, 16, 32, 64, 128],
     };
     let mut v = Vec::new();
@@ -175,11 +196,11 @@ fn pos_sizes(tier: Tier) -> Vec<(usize, usize)> {
 }
 
 fn pal_max(tier: Tier) -> usize {
-    tier.pick(17, 64)
+    tier.pick(40, 64)
 }
 
 fn rand_seeds(tier: Tier) -> u64 {
-    tier.pick(4, 32)
+    tier.pick(8, 32)
 }
 
 fn chunk_count(tier: Tier, fam: &str) -> u64 {
@@ -492,6 +513,10 @@ fn run_pal(tier: Tier, chunk: u64, t: &mut Tally, hashes: &mut Vec<Option<u64>>)
         t.class(if w % 8 == 0 && h % 4 == 0 { "palette:block-aligned" } else { "palette:cropped" });
         let what = format!("TPL CI8 {}x{} (stored {} bytes), index plane {}", w, h, len, plane);
         hashes.push(judge(observe_tpl(w, h, &payload, &pal), &exp, w, "palette-position", &what, &case, t));
+        if plane == 0 {
+            t.cases += 1;
+            hashes.push(judge(observe_tpl_third(w, h, &payload, &pal), &exp, w, "palette-position:third-image", &format!("{} as the third image of one file", what), &case, t));
+        }
     }
     // a palette SMALLER than 256 entries: the visible pixels use valid indices, the padding
     // texels of partially filled blocks (not part of the image) hold 0xFF / 0x10
